@@ -96,7 +96,7 @@ fn main() {
             // watermark safety (C06); fewer cases per component than in their own checks
             let c05 = opts.prop == "C05";
             let module = if c05 { "Corr.C05" } else { "Corr.C06" };
-            let mut sink = cases::CaseSink::new(&opts.prop, &format!("Corr.BinCorr Model.BinaryStart Model.Joins Corr.C08 {module}"), &opts.out, 150);
+            let mut sink = cases::CaseSink::new(&opts.prop, &format!("Corr.BinCorr Model.BinaryStart Model.Joins Model.End Corr.LinkCorr Model.Route Corr.RouteCorr Corr.C08 Corr.C09 {module}"), &opts.out, 150);
             let sub = Opts { prop: opts.prop.clone(), thorough: opts.thorough, seed: opts.seed, out: opts.out.clone(), replay: None, scale: 3 };
             sink.wrap = Some(("KStart".into(), "C17".into()));
             props::c17::generate(&sub, &mut sink);
@@ -114,6 +114,10 @@ fn main() {
             props::c13::generate(&sub, &mut sink);
             sink.wrap = Some(("KReorder".into(), "C16".into()));
             props::c16::generate(&sub, &mut sink);
+            if c05 {
+                sink.wrap = Some(("KFan".into(), "C09".into()));
+                props::c09::generate_zip_merge(&sub, &mut sink);
+            }
             sink.finish(if c05 { props::RULE_C05 } else { props::RULE_C06 }, serde_json::json!({}));
         }
         "C03" => {
